@@ -463,5 +463,141 @@ Section C07Algebra.
         replace (n2 + (r1 - t) + (i - r) - n2)%nat with (r1 - t + (i - r))%nat by lia.
         unfold mvec. rewrite <- (sum_scal_l o L). apply (sum_ext o). intros l Hl. ring.
     Qed.
+
+    (* ---------- completeness: the generators span the homology, the coordinates detect boundaries ---------- *)
+    (* the first r1 - t diagonal entries of D1 are units *)
+    Variable uinv : nat -> R.
+    Hypothesis uinv_ok : forall l, (l < r1 - t)%nat -> D1 l l * uinv l = 1.
+
+    Lemma mvec_id (z : nat -> R) i : (i < n)%nat -> mvec o n (mid o) z i = z i.
+    Proof.
+      intros Hi. unfold mvec, mid.
+      rewrite (sum_ext o n _ (fun l => if l =? i then z l else 0)).
+      - now rewrite (sum_delta o L).
+      - intros l _. rewrite Nat.eqb_sym. destruct (l =? i); ring.
+    Qed.
+
+    Lemma mvec_ext (A : mat R) (v v' : nat -> R) p i :
+      (forall l, (l < p)%nat -> v l = v' l) -> mvec o p A v i = mvec o p A v' i.
+    Proof. intros H. unfold mvec. apply (sum_ext o). intros l Hl. now rewrite H. Qed.
+
+    Lemma mvec_ext_row (A A' : mat R) (v : nat -> R) p i :
+      (forall l, (l < p)%nat -> A i l = A' i l) -> mvec o p A v i = mvec o p A' v i.
+    Proof. intros H. unfold mvec. apply (sum_ext o). intros l Hl. now rewrite H. Qed.
+
+    Section Cycle.
+      Variable z : nat -> R.
+      Hypothesis z_cycle : forall i, (i < k)%nat -> mvec o n d2 z i = 0.
+      Let w : nat -> R := mvec o n Vi z.
+
+      Lemma z_Vw i : (i < n)%nat -> z i = mvec o n V w i.
+      Proof.
+        intros Hi. unfold w. rewrite <- (mvec_mmul o L).
+        rewrite (mvec_ext_row _ (mid o)) by (intros l Hl; now apply VVi).
+        symmetry. now apply mvec_id.
+      Qed.
+
+      Lemma w_low_zero a : (a < r2)%nat -> w a = 0.
+      Proof.
+        intros Ha. pose proof (sm_r _ _ _ _ _ _ _ _ _ S2) as Hr2. pose proof n_split as Hn.
+        assert (E : mvec o n (mmul o k P2 (mmul o n d2 V)) w a = 0).
+        { rewrite (mvec_mmul o L). unfold mvec at 1. apply (sum_zero_ext o L). intros i Hi.
+          rewrite (mvec_mmul o L).
+          rewrite (mvec_ext d2 _ z) by (intros l Hl; symmetry; now apply z_Vw).
+          rewrite z_cycle by assumption. ring. }
+        rewrite (mvec_ext_row _ (fun i j => if j <? n2 then D2 i j else 0)) in E
+          by (intros l Hl; apply P2d2V; lia).
+        unfold mvec in E.
+        rewrite (sum_single o L n a) in E.
+        - destruct (Nat.ltb_spec a n2); [|lia].
+          rewrite (rmul_comm o L) in E.
+          apply mul_nz_cancel with (b := D2 a a); [exact E|]. now apply (sm_nz _ _ _ _ _ _ _ _ _ S2).
+        - lia.
+        - intros l Hl Hne. destruct (Nat.ltb_spec l n2); [|ring].
+          rewrite (sm_diag _ _ _ _ _ _ _ _ _ S2) by (try assumption; try lia; congruence). ring.
+      Qed.
+
+      (* z = q (p z) + d1 x *)
+      Theorem cycle_decomp :
+        exists x : nat -> R, forall i, (i < n)%nat ->
+          z i = mvec o (r + t) qF (mvec o n pF z) i + mvec o m d1 x i.
+      Proof.
+        pose proof r2_le_n2 as Hr2. pose proof n_split as Hn.
+        exists (fun c => sum o (r1 - t) (fun l => Q1 c l * (uinv l * w (n2 + l)%nat))).
+        intros i Hi. rewrite (z_Vw i Hi).
+        (* split the sum over the columns of V *)
+        unfold mvec at 1.
+        replace n with (r2 + r + (r1 - t) + t)%nat at 1 by (unfold r; lia).
+        rewrite !(sum_split o L).
+        rewrite (sum_zero_ext o L r2) by (intros l Hl; rewrite w_low_zero by assumption; ring).
+        (* q (p z) *)
+        change (mvec o (r + t) qF (mvec o n pF z) i) with (sum o (r + t) (fun s => qF i s * mvec o n pF z s)).
+        rewrite (sum_split o L).
+        assert (E1 : sum o r (fun s => qF i s * mvec o n pF z s)
+                     = sum o r (fun s => V i (r2 + s)%nat * w (r2 + s)%nat)).
+        { apply (sum_ext o). intros s Hs. unfold qF, pF, sg, w, mvec.
+          destruct (Nat.ltb_spec s r); [reflexivity|lia]. }
+        assert (E2 : sum o t (fun s => qF i (r + s)%nat * mvec o n pF z (r + s)%nat)
+                     = sum o t (fun s => V i (r2 + r + (r1 - t) + s)%nat * w (r2 + r + (r1 - t) + s)%nat)).
+        { apply (sum_ext o). intros s Hs. unfold qF, pF, sg, w, mvec.
+          destruct (Nat.ltb_spec (r + s) r); [lia|].
+          replace (n2 + (r1 - t) + (r + s - r))%nat with (r2 + r + (r1 - t) + s)%nat by (unfold r; lia).
+          reflexivity. }
+        rewrite E1, E2.
+        (* the remaining block is a boundary *)
+        assert (E3 : sum o (r1 - t) (fun l => V i (r2 + r + l)%nat * w (r2 + r + l)%nat)
+                     = mvec o m d1 (fun c => sum o (r1 - t) (fun l => Q1 c l * (uinv l * w (n2 + l)%nat))) i).
+        { unfold mvec.
+          rewrite (sum_ext o m _ (fun c => sum o (r1 - t) (fun l => d1 i c * Q1 c l * (uinv l * w (n2 + l)%nat)))).
+          2:{ intros c Hc. rewrite <- (sum_scal_l o L). apply (sum_ext o). intros l Hl. ring. }
+          rewrite (sum_swap o L). apply (sum_ext o). intros l Hl.
+          rewrite (sum_scal_r o L).
+          change (sum o m (fun c => d1 i c * Q1 c l)) with (mmul o m d1 Q1 i l).
+          pose proof (sm_r _ _ _ _ _ _ _ _ _ S1) as Hr1.
+          rewrite (smith_AQ_entry _ _ _ _ _ _ _ _ _ S1) by lia.
+          destruct (Nat.ltb_spec l r1); [|lia].
+          replace (r2 + r + l)%nat with (n2 + l)%nat by (unfold r; lia).
+          rewrite V_tor by lia. replace (n2 + l - n2)%nat with l by lia.
+          transitivity (B i l * (D1 l l * uinv l) * w (n2 + l)%nat); [|ring].
+          rewrite uinv_ok by assumption. ring. }
+        rewrite E3. ring.
+      Qed.
+
+      (* if moreover the coordinates of z vanish modulo the torsion orders, z is a boundary *)
+      Theorem cycle_boundary (cf : nat -> R) :
+        (forall i, (i < r)%nat -> mvec o n pF z i = 0) ->
+        (forall s, (s < t)%nat -> mvec o n pF z (r + s)%nat = D1 (r1 - t + s)%nat (r1 - t + s)%nat * cf s) ->
+        exists x : nat -> R, forall i, (i < n)%nat -> z i = mvec o m d1 x i.
+      Proof.
+        intros Hfree Htor.
+        pose proof r2_le_n2 as Hr2. pose proof n_split as Hn.
+        pose proof (sm_r _ _ _ _ _ _ _ _ _ S1) as Hr1.
+        destruct cycle_decomp as [x0 Hx0].
+        exists (fun c => x0 c + sum o t (fun s => Q1 c (r1 - t + s)%nat * cf s)).
+        intros i Hi. rewrite (Hx0 i Hi).
+        assert (El : mvec o m d1 (fun c => x0 c + sum o t (fun s => Q1 c (r1 - t + s)%nat * cf s)) i
+                     = mvec o m d1 x0 i + mvec o m d1 (fun c => sum o t (fun s => Q1 c (r1 - t + s)%nat * cf s)) i).
+        { unfold mvec. rewrite <- (sum_add o L). apply (sum_ext o). intros c Hc. ring. }
+        rewrite El. rewrite (radd_comm o L). f_equal.
+        change (mvec o (r + t) qF (mvec o n pF z) i) with (sum o (r + t) (fun s => qF i s * mvec o n pF z s)).
+        rewrite (sum_split o L).
+        rewrite (sum_zero_ext o L r) by (intros s Hs; rewrite Hfree by assumption; ring).
+        unfold mvec at 2.
+        rewrite (sum_ext o m _ (fun c => sum o t (fun s => d1 i c * Q1 c (r1 - t + s)%nat * cf s))).
+        2:{ intros c Hc. rewrite <- (sum_scal_l o L). apply (sum_ext o). intros s Hs. ring. }
+        rewrite (sum_swap o L).
+        transitivity (sum o t (fun s => qF i (r + s)%nat * mvec o n pF z (r + s)%nat)); [ring|].
+        apply (sum_ext o). intros s Hs.
+        rewrite (sum_scal_r o L).
+        change (sum o m (fun c => d1 i c * Q1 c (r1 - t + s)%nat)) with (mmul o m d1 Q1 i (r1 - t + s)%nat).
+        rewrite (smith_AQ_entry _ _ _ _ _ _ _ _ _ S1) by lia.
+        destruct (Nat.ltb_spec (r1 - t + s) r1); [|lia].
+        rewrite Htor by assumption.
+        unfold qF, sg. destruct (Nat.ltb_spec (r + s) r); [lia|].
+        rewrite V_tor by lia.
+        replace (n2 + (r1 - t) + (r + s - r) - n2)%nat with (r1 - t + s)%nat by lia.
+        ring.
+      Qed.
+    End Cycle.
   End TwoSnf.
 End C07Algebra.
